@@ -60,6 +60,11 @@ CLAIMED = {
     text='law_requests, law_writes, law_compilations, ledger_hits, zero_quiescent (any history) and stats_interleaving_invariant (any two schedules of the same increments) are proved against the per-outcome increment table extracted from check_compiler/start_compile_task on every run; the 15 counters of a real server after real client histories must equal the fold, and the laws and a compiler-run ledger are evaluated on the real counters.',
     note='Trusted: Lean kernel, translator (regex extraction of stats increments), quiescence assumption. Per-language breakdown law is monitored on the real JSON, not modelled.',
     ref='DESIGN.md section 4 C14, Appendix B.6'),
+
+ 'C16': dict(technique='Lean 4 proof (conservation invariant over all interleavings of request/cancel/grant/spawn/exit steps) + differential correspondence on the real jobserver::Client at quiescent points + process-ledger monitor on a real CPU-restricted server',
+    text='token_bound, token_conservation, token_no_leak, token_progress and cancelled_head_returns_token are proved for every sequence of pool steps and any number of requests; the real jobserver::Client (helper thread, oneshot hand-off, cancellation by dropping the future) is compared with the model at quiescent points, and a real server pinned to 2 CPUs is observed with an enter/leave ledger under failing compiles and killed clients followed by a saturating burst.',
+    note='Trusted: Lean kernel, Model/Tokens.lean (tied by h_tokens), quiescence window of the harness. Real thread timing is not modelled (partial).',
+    ref='DESIGN.md section 4 C16, Appendix B.5'),
 }
 NA_REASON = 'not yet wired into ./check in this round (model and theorems exist under lean/; see DESIGN.md section 0.1)'
 def hooks():
